@@ -1,8 +1,55 @@
 import Driver.Util
-/-! Line-protocol driver for C13 (not built yet). -/
+import Driver.ExecIO
+import GqlgenVerif.Model.Defer
+/-! Driver for C13: first line = schema JSON; every further line = one harness result of an operation
+    with @defer. Prints the model's initial payload and the set of deferred-group payloads. -/
+open Lean GqlgenVerif Driver.ExecIO
 namespace Driver.C13
-def step (_line : String) : String := "bad-op"
+
+def payloadJson (p : D.Payload) : Json :=
+  Json.mkObj [("path", Json.str (pathStr p.path)), ("label", Json.str p.label),
+    ("data", Json.str (render p.data)),
+    ("errors", Json.arr ((errStrs p.st.errs).map Json.str).toArray)]
+
+def runCase (s : Schema) (line : String) : String :=
+  match Json.parse line with
+  | .error e => "bad-json " ++ e
+  | .ok j =>
+    match j.getObjVal? "doc" with
+    | .error _ => "no-doc"
+    | .ok dj =>
+      let d := doc dj
+      let vs := match j.getObjVal? "variables" with | .ok v => vars v | _ => []
+      let isQuery := d.opKind == .query
+      let rootName := if d.opKind == .mutation then s.mutation else s.query
+      match s.type? rootName with
+      | none => "no-root"
+      | some root =>
+        let o := oracle (arr j "log")
+        match planFields s (implCollector s d.frags vs isQuery) 100000 root d.sels with
+        | none => "out-of-fuel"
+        | some fields =>
+          let (init, groups) := D.execDeferred o rootName fields
+          let allSt := groups.foldl (fun a g => a.append g.st) init.st
+          (Json.mkObj [
+            ("initial", payloadJson init),
+            ("groups", Json.arr (groups.map payloadJson).toArray),
+            ("invs", Json.arr ((sortStrs (allSt.invs.map fun (p, h) => p ++ " " ++ h)).map Json.str).toArray),
+            ("recovers", Json.num allSt.recovers),
+            ("unlogged", Json.arr (allSt.unlogged.map Json.str).toArray)]).compress
+
+partial def loop (h : IO.FS.Stream) (out : IO.FS.Stream) (s : Schema) : IO Unit := do
+  let line ← h.getLine
+  if line.isEmpty then return ()
+  out.putStrLn (runCase s line.trimRight)
+  loop h out s
+
 end Driver.C13
 
 def main : IO Unit := do
-  Driver.loop (← IO.getStdin) (← IO.getStdout) Driver.C13.step
+  let stdin ← IO.getStdin
+  let stdout ← IO.getStdout
+  let first ← stdin.getLine
+  match Json.parse first with
+  | .error e => IO.eprintln ("bad schema: " ++ e)
+  | .ok j => Driver.C13.loop stdin stdout (schema j)
